@@ -64,10 +64,9 @@ pub fn binary<F: RawFloat, const FORMAT: u128>(num: &Number, lossy: bool) -> Ext
     // disambiguate the float. If it's even, and exactly halfway, this
     // step fails.
     let power2 = shared::calculate_power2::<F, FORMAT>(num.exponent, ctlz);
-    if -power2 + 1 >= 64 {
-        // Have more than 63 bits below the minimum exponent, must be 0.
-        // Since we can't have partial digit rounding, this is true always
-        // if the power-of-two >= 64.
+    if -power2 + 1 > 64 {
+        // Have more than 64 bits below the minimum exponent, must be 0:
+        // the value is below half of the smallest denormal float.
         return fp_zero;
     }
 
@@ -77,8 +76,11 @@ pub fn binary<F: RawFloat, const FORMAT: u128>(num: &Number, lossy: bool) -> Ext
     let shift = shared::calculate_shift::<F>(power2);
 
     // Determine if we can see if we're at a halfway point.
-    let last_bit = 1u64 << shift;
-    let truncated = last_bit - 1;
+    // NOTE: The shift is 64 if the value is in `[0.5, 1)` of the smallest
+    // denormal float: all bits are truncated and the (even) result is 0
+    // unless we round up.
+    let last_bit = 1u64.checked_shl(shift as u32).unwrap_or(0);
+    let truncated = last_bit.wrapping_sub(1);
     let halfway = lower_n_halfway(shift as u64);
     let is_even = mantissa & last_bit == 0;
     let is_halfway = mantissa & truncated == halfway;
